@@ -14,7 +14,7 @@ import numpy as np
 from harness.common import enc, Z, B, opt, to_zs, is_err, err_code, kids, tag
 
 PROP = 'C04'
-GENERATORS = ['gen_array', 'gen_viewprog']
+GENERATORS = ['gen_array', 'gen_viewprog', 'gen_arraypure']   # gen_arraypure: C20.Model (imported through C20's lemma files) uses Gen_arraypure
 TRUSTED = [
     'translator tools/py2gallina.py: Gen_array.combine_slices (used by the SliceSubsetState model) is regenerated from glue/utils/array.py on every run',
     'hand model coq/C04/Model.v of SliceSubsetState.to_mask, the RoiSubsetStateNd pixel-space shortcut, CoordinateComponent._calculate (world) and '
